@@ -5,6 +5,7 @@
 #![feature(allocator_api)]
 #![allow(unused_imports, unused_variables, dead_code, unused_mut, unused_assignments, non_snake_case, unused_parens, unreachable_code, unreachable_patterns)]
 use vstd::prelude::*;
+use vstd::std_specs::cmp::PartialEqSpec;
 verus! {
 
 pub mod ax {
@@ -70,14 +71,21 @@ impl Utc {
 pub type TaskMapS = Map<Seq<char>, Seq<char>>;
 pub type State = Map<Uuid, TaskMapS>;
 
+pub mod tmod {
+use vstd::prelude::*;
+pub type TaskMapS = Map<Seq<char>, Seq<char>>;
 #[verifier::external_body]
-#[verifier::accept_recursive_types]
 pub struct TaskMap { inner: std::collections::HashMap<String, String> }
 
 impl View for TaskMap {
     type V = TaskMapS;
     uninterp spec fn view(&self) -> TaskMapS;
 }
+// a TaskMap is determined by its contents
+pub broadcast axiom fn axiom_taskmap_view_injective(a: TaskMap, b: TaskMap)
+    ensures #[trigger] a@ == #[trigger] b@ ==> a == b;
+}
+pub use tmod::TaskMap;
 impl TaskMap {
     #[verifier::external_body]
     pub fn new() -> (r: Self) ensures r@ == Map::<Seq<char>, Seq<char>>::empty() { unimplemented!() }
@@ -109,16 +117,25 @@ impl PartialEq for TaskMap {
     #[verifier::external_body]
     fn eq(&self, other: &Self) -> (r: bool) ensures r == (self@ == other@) { unimplemented!() }
 }
+/// all pairs of a map, in unspecified order, each key once
+pub open spec fn drained(old: TaskMapS, r: Seq<(String, String)>) -> bool {
+    &&& forall|i: int| 0 <= i < r.len() ==> old.dom().contains((#[trigger] r[i]).0@) && old[r[i].0@] == r[i].1@
+    &&& forall|k: Seq<char>| old.dom().contains(k) ==> exists|i: int| 0 <= i < r.len() && (#[trigger] r[i]).0@ == k
+    &&& forall|i: int, j: int| 0 <= i < j < r.len() ==> (#[trigger] r[i]).0@ != (#[trigger] r[j]).0@
+}
 /// `TaskMap::drain()` (rule R5): all pairs, in unspecified order, each key once; the map is left empty.
 #[verifier::external_body]
 pub fn drain_map(m: &mut TaskMap) -> (r: Vec<(String, String)>)
-    ensures final(m)@ == Map::<Seq<char>, Seq<char>>::empty(),
-        forall|i: int| 0 <= i < r@.len() ==> old(m)@.dom().contains(#[trigger] r@[i].0@) && old(m)@[r@[i].0@] == r@[i].1@,
-        forall|k: Seq<char>| old(m)@.dom().contains(k) ==> exists|i: int| 0 <= i < r@.len() && #[trigger] r@[i].0@ == k,
-        forall|i: int, j: int| 0 <= i < j < r@.len() ==> #[trigger] r@[i].0@ != #[trigger] r@[j].0@,
+    ensures final(m)@ == Map::<Seq<char>, Seq<char>>::empty(), drained(old(m)@, r@),
 { unimplemented!() }
 
 // ---- A4: std helpers vstd lacks ----------------------------------------------------------------------
+pub assume_specification<T: Clone>[ <[T]>::to_vec ](s: &[T]) -> (r: Vec<T>)
+    ensures r@ == s@;
+pub assume_specification<T>[ <[T]>::reverse ](s: &mut [T])
+    ensures final(s)@ == old(s)@.reverse();
+pub assume_specification<'a, T: PartialEq<U>, U, A: std::alloc::Allocator>[ <&'a [T] as PartialEq<Vec<U, A>>>::eq ](a: &&'a [T], b: &Vec<U, A>) -> (r: bool)
+    ensures <T as vstd::std_specs::cmp::PartialEqSpec<U>>::obeys_eq_spec() ==> r == (a@.len() == b@.len() && forall|i: int| 0 <= i < a@.len() ==> (#[trigger] a@[i]).eq_spec(&b@[i]));
 /// rule R3: the text of a `format!` only ever flows into error payloads / log lines
 #[verifier::external_body]
 pub fn opaque_string() -> String { String::new() }
